@@ -262,3 +262,119 @@ class Stage2SummIntrinsics(Stage2Intrinsics):
                         nxt = s
                 cur = nxt
             return Forks(items)
+
+
+ESC = {0x22: 0x22, 0x5c: 0x5c, 0x2f: 0x2f, 0x62: 0x08, 0x66: 0x0c, 0x6e: 0x0a, 0x72: 0x0d, 0x74: 0x09}
+
+
+class Stage2EscIntrinsics(Stage2SummIntrinsics):
+    """string decoder = its reference relation restricted to the eight two-character escapes (lemmas S1-S4 establish REF-STR
+    for the assembly); the validating wrapper parseStringSimdValidateOnly runs for real on top of the asm-level stub."""
+
+    def _decode(self, eng, st, bs, start):
+        """fork over the shape of the string starting at bs[start]: yields (state, ok, end index of the closing quote, decoded bytes)"""
+        out = []
+        work = [(st, start, [])]
+        while work:
+            cur, j, dec = work.pop()
+            while True:
+                if j >= len(bs):
+                    eng.oblige(cur, False, "panic", "string decoder: no closing quote inside the padded buffer", None)
+                    cur.status = "dead"
+                    break
+                b = bs[j]
+                cases = eng.branch(cur, simp(bv(b, 8) == 0x22))
+                nxt = None
+                for s, t in cases:
+                    if t:
+                        out.append((s, True, j, list(dec)))
+                    else:
+                        nxt = s
+                if nxt is None:
+                    break
+                cur = nxt
+                cases = eng.branch(cur, simp(bv(b, 8) == 0x5c))
+                plain = None
+                escs = None
+                for s, t in cases:
+                    if t:
+                        escs = s
+                    else:
+                        plain = s
+                if escs is not None:
+                    if j + 1 >= len(bs):
+                        escs.status = "dead"
+                    else:
+                        c = bs[j + 1]
+                        rest = escs
+                        for code, val in ESC.items():
+                            if rest is None:
+                                break
+                            r = eng.branch(rest, simp(bv(c, 8) == code))
+                            rest = None
+                            for s, t in r:
+                                if t:
+                                    work.append((s, j + 2, dec + [val]))
+                                else:
+                                    rest = s
+                        if rest is not None:
+                            # \u is excluded by the harness; any other byte after a backslash is rejected by the decoder
+                            r = eng.branch(rest, simp(bv(c, 8) == 0x75))
+                            for s, t in r:
+                                if t:
+                                    s.status = "dead"
+                                else:
+                                    out.append((s, False, j, list(dec)))
+                if plain is None:
+                    break
+                cur = plain
+                dec = dec + [b]
+                j += 1
+        return out
+
+    def _register(self):
+        super()._register()
+        H = PKG + "."
+        del self.table[H + "parseStringSimdValidateOnly"]
+
+        @self.reg(H + "_parse_string_validate_only")
+        def asm_validate(eng, st, fr, args, ins):
+            src, pmax, pstrlen, pdstlen = args
+            pos = ins.get("pos")
+            arr = eng.load_path(st.mem[src.obj], src.path[:-1], st, pos)
+            start = eng.need_int(st, src.path[-1], pos, "string source offset")
+            items = []
+            for s, ok, j, dec in self._decode(eng, st, list(arr), start):
+                if s.status != "run":
+                    continue
+                if ok:
+                    eng.store(s, pstrlen, j - start, pos, 64)
+                    eng.store(s, pdstlen, len(dec), pos, 64)
+                    items.append((s, 1))
+                else:
+                    items.append((s, 0))
+            if st not in [s for s, _ in items]:
+                st.status = "dead"
+            return Forks(items)
+
+        @self.reg(H + "parseStringSimd")
+        def copy(eng, st, fr, args, ins):
+            buf, psb = args
+            pos = ins.get("pos")
+            bs = eng.slice_read_all(st, buf, pos)
+            items = []
+            for s, ok, j, dec in self._decode(eng, st, bs, 1):
+                if s.status != "run" or not ok:
+                    continue
+                sb = eng.deref(s, psb, pos)
+                ln = eng.need_int(s, sb.len, pos, "string buffer length")
+                cp = eng.need_int(s, sb.cap, pos, "string buffer capacity")
+                if not eng.oblige(s, ln + len(dec) + 32 <= cp, "panic", "string copy writes past the string buffer's capacity (needs 32 bytes of slack)", pos):
+                    continue
+                if dec:
+                    nsb = eng.bi_append(s, sb, eng.mk_slice(s, dec), pos, {"t": None})
+                    eng.store(s, psb, nsb, pos)
+                items.append((s, True))
+            if st not in [s for s, _ in items]:
+                st.status = "dead"
+            return Forks(items)
